@@ -245,7 +245,7 @@ def run_lines(binary, mode, lines, timeout=1800):
     return p.returncode, out, p.stderr
 
 
-def run_pair(ctx, tvh, mode, cases):
+def run_pair(ctx, tvh, mode, cases, driver_mode=None):
     """run implementation and model on the same cases; returns (impl_out, model_out).
     If the harness process dies (abort, stack overflow) the killing case is marked CRASH and the
     rest of the cases are run in a fresh process."""
@@ -268,11 +268,42 @@ def run_pair(ctx, tvh, mode, cases):
             break
     if crashes:
         ctx.oblige(f"harness {mode}: every case returns", False, f"{len(crashes)} crashing cases; first: {crashes[0][0][:200]} {crashes[0][1]}")
-    rc2, model, e2 = run_lines(driver_path(), mode, cases)
+    rc2, model, e2 = run_lines(driver_path(), driver_mode or mode, cases)
     if not (rc2 == 0 and len(model) == len(cases)):
         ctx.oblige(f"driver {mode}: every case returns", False, f"rc={rc2} {e2[-300:]} lines={len(model)}/{len(cases)}")
         model = model + ["DRIVER-CRASH"] * (len(cases) - len(model))
     return impl, model
+
+
+def regression_lines(ctx, tvh, modes, compare=None, suffix="", cut=None, driver_mode=None):
+    """the committed probe corpus corpus/lines/<mode>.txt (cases written while reviewing the models against the
+    sources, one case line per line): model driver = implementation on every line, no panic. `compare(i, m)` may
+    return a description of a mismatch (default: the lines must be equal)."""
+    total = 0
+    for mode in modes:
+        import gzip
+        path = os.path.join(ROOT, "corpus", "lines", mode + suffix + ".txt.gz")
+        if not os.path.exists(path):
+            continue
+        cases = [l.rstrip("\n") for l in gzip.open(path, "rt") if l.strip()]
+        if not cases:
+            continue
+        impl, model = run_pair(ctx, tvh, {"doc_long": "doc"}.get(mode, mode), cases, driver_mode=driver_mode)
+        nd, first = 0, None
+        for c, i, m in zip(cases, impl, model):
+            if i.startswith("PANIC") or i == "CRASH":
+                ctx.violation(f"probe corpus {mode}: {c[:120]}: {i[:160]}", {"mode": mode, "case": c, "impl": i[:2000], "model": m[:2000], "witness": c})
+                continue
+            if cut:
+                i = cut(i)
+            mm = compare(i, m) if compare else (None if i == m else "lines differ")
+            if mm:
+                nd += 1
+                if first is None or len(c) < len(first[0]):
+                    first = (c[:300], i[:200], m[:200], mm)
+        total += len(cases)
+        ctx.oblige(f"probe corpus {mode}{suffix}: model driver = implementation on {len(cases)} reviewed cases", nd == 0, f"{nd} disagreements; shortest: {first}")
+    ctx.cov["probe_corpus_lines"] = ctx.cov.get("probe_corpus_lines", 0) + total
 
 
 def bisect_crash(tvh, mode, cases):
